@@ -479,7 +479,8 @@ impl CanonicalizeContextPatterns {
 		// Note: on en.wikipedia.org/wiki/Decimal_separator, show '3.14159 26535 89793 23846'
 		let block_4digit_hex_pattern =  Regex::new(r"^[0-9a-fA-F]{4}([ \u00A0\u202F][0-9a-fA-F]{4})*$").unwrap();
 		// \uFFFF stands for the boundary between two adjacent mn's: 1-3 single digit mn's, then blocks of a separator and three single digit mn's
-		let block_1digit_pattern =  Regex::new(r"^(\d(\uFFFF\d){0,2}([, \u00A0\u202F]\d(\uFFFF\d){2})*)?([\.](\d(\uFFFF\d)*)?)?$").unwrap();
+		let block_1digit_pattern =  Regex::new(&format!(r"^(\d(\uFFFF\d){{0,2}}([{}]\d(\uFFFF\d){{2}})*)?([{}](\d(\uFFFF\d)*)?)?$",
+							regex::escape(block_separator_pref), regex::escape(decimal_separator_pref))).unwrap();
 
 		return CanonicalizeContextPatterns {
 			block_separator,
